@@ -59,8 +59,29 @@ Inductive panswer :=
 | PEvents (l : list event)   (* err = nil; the list may be empty *)
 | PError.
 
-Inductive gstatus := GDone | GAddErr | GOutOfFuel.
-Inductive cverdict := VAllowed | VNotAllowed | VAddErr | VOutOfFuel.
+Inductive gstatus := GDone | GAddErr | GDupTuple | GOutOfFuel.
+Inductive cverdict := VAllowed | VNotAllowed | VAddErr | VDupTuple | VOutOfFuel.
+
+Definition same_tuple (a b : event) : bool :=
+  (etype a =? etype b) &&
+  match skey a, skey b with Some x, Some y => x =? y | None, None => true | _, _ => false end.
+
+(* a different event for the same (type, state_key) is already among acc *)
+Definition conflict (a : event) (acc : list event) : bool :=
+  existsb (fun b => same_tuple a b && negb (eid a =? eid b)) acc.
+
+(* no event of l is a second, different event for a (type, state_key) of acc or of an earlier
+   event of l *)
+Fixpoint tuples_ok (acc l : list event) : bool :=
+  match l with
+  | [] => true
+  | a :: r => negb (conflict a acc) && tuples_ok (acc ++ [a]) r
+  end.
+Definition tuples_distinct (l : list event) : bool := tuples_ok [] l.
+
+(* all events belong to one room *)
+Definition one_room (l : list event) : bool :=
+  match l with [] => true | e :: r => forallb (fun x => eroom x =? eroom e) r end.
 
 Section Filters.
   Variable PS : Type.
@@ -68,19 +89,23 @@ Section Filters.
   Variable allowed : event -> list event -> bool.
   Variable pcall : PS -> list N -> PS * panswer.
 
-  (* the for-loop over the events a provider returned (inside the retry branch):
-     AddEvent succeeds exactly for state events *)
-  Fixpoint absorb (ev : list event) (acc : list event) (m : emap) : list event * emap :=
+  (* the for-loop over the events a provider returned (inside the retry branch): they are
+     remembered under their own IDs (nil for a non-state event); since fix F82 they do not enter
+     the auth events of the event being checked by themselves *)
+  Fixpoint absorb (ev : list event) (m : emap) : emap :=
     match ev with
-    | [] => (acc, m)
-    | e :: r =>
-        if is_state e then absorb r (acc ++ [e]) (mset m (eid e) (Some e))
-        else absorb r acc (mset m (eid e) None)
+    | [] => m
+    | e :: r => absorb r (mset m (eid e) (if is_state e then Some e else None))
     end.
+
+  (* fix F82: an answer without the requested event counts as an empty answer *)
+  Definition settle (m : emap) (ae : N) : emap :=
+    match mget m ae with None => mset m ae None | Some _ => m end.
 
   (* authstate.go: checkAllowedByAuthEvents, the loop over AuthEventIDs() with its
      `goto retryEvent`. One unit of fuel per visit of the label. hasprov = (missingAuth != nil).
-     acc lists the AddEvent calls made so far, in order. *)
+     acc lists the AddEvent calls made so far, in order. Fix F84: a second, different event for
+     a (type, state_key) already cited is an error. *)
   Fixpoint gather (fuel : nat) (hasprov : bool) (aes : list N) (acc : list event)
            (m : emap) (ps : PS) : gstatus * list event * emap * PS :=
     match fuel with
@@ -95,13 +120,14 @@ Section Filters.
                   let '(ps', ans) := pcall ps [ae] in
                   match ans with
                   | PEvents (e :: ev) =>
-                      let '(acc', m') := absorb (e :: ev) acc m in
-                      gather f hasprov aes acc' m' ps'
+                      gather f hasprov aes acc (settle (absorb (e :: ev) m) ae) ps'
                   | _ => gather f hasprov aes acc (mset m ae None) ps'
                   end
                 else gather f hasprov rest acc m ps
             | Some (Some a) =>
-                if is_state a then gather f hasprov rest (acc ++ [a]) m ps
+                if is_state a then
+                  if conflict a acc then (GDupTuple, acc, m, ps)
+                  else gather f hasprov rest (acc ++ [a]) m ps
                 else (GAddErr, acc, m, ps)
             | Some None => gather f hasprov rest acc m ps
             end
@@ -114,6 +140,7 @@ Section Filters.
     match st with
     | GDone => (if allowed e acc then VAllowed else VNotAllowed, m', ps')
     | GAddErr => (VAddErr, m', ps')
+    | GDupTuple => (VDupTuple, m', ps')
     | GOutOfFuel => (VOutOfFuel, m', ps')
     end.
 
@@ -123,6 +150,7 @@ Section Filters.
   | CsrOk (authEvents stateEvents : list event)
   | CsrNoStateKey          (* some event of the response is not a state event *)
   | CsrDuplicate           (* two state events with the same (type, state_key) *)
+  | CsrMixedRooms          (* fix F85: the events do not all belong to one room *)
   | CsrOutOfFuel.
 
   Definition tuple_mem (t k : N) (seen : list (N * N)) : bool :=
@@ -174,6 +202,7 @@ Section Filters.
     | Some err => (err, ps)
     | None =>
         let all := authEvents ++ stateEvents in
+        if negb (one_room all) then (CsrMixedRooms, ps) else
         let sf := sig_failures all in
         let m0 := verified_map sf all in
         let '(fails, _, ps') := auth_loop fuel hasprov all sf m0 ps in
@@ -218,8 +247,14 @@ Section Filters.
   Variable sp_state : PS -> event -> list N -> PS * option emap.    (* StateBeforeEvent *)
 
   Inductive ras_result :=
-  | RasOk | RasIDsErr | RasStateErr | RasNotAllowed.
+  | RasOk | RasIDsErr | RasStateErr | RasStateDup | RasNotAllowed.
 
+  (* the state events of the fetched state (the map's keys play no role) *)
+  Definition state_events_of (m : emap) : list event :=
+    flat_map (fun kv => match snd kv with Some a => if is_state a then [a] else [] | None => [] end) m.
+
+  (* fix F83: the slow path judges the event by the fetched state itself; a state with two
+     different events for one (type, state_key) is refused *)
   Definition verify_auth_rules_at_state (e : event) (allowValidation : bool) (ps : PS)
     : ras_result * PS :=
     match sp_ids ps e with
@@ -230,12 +265,9 @@ Section Filters.
           match sp_state ps1 e ids with
           | (ps2, None) => (RasStateErr, ps2)
           | (ps2, Some m) =>
-              (* missingAuth = nil: the loop never retries, |auth_ids|+1 visits suffice *)
-              let '(v, _, ps3) := check_allowed (S (length (auth_ids e))) false e m ps2 in
-              match v with
-              | VAllowed => (RasOk, ps3)
-              | _ => (RasNotAllowed, ps3)
-              end
+              let st := state_events_of m in
+              if negb (tuples_distinct st) then (RasStateDup, ps2)
+              else if allowed e st then (RasOk, ps2) else (RasNotAllowed, ps2)
           end
     end.
 End Filters.
